@@ -1,4 +1,25 @@
-"""C04 -- every result honours the common interface, for any input.  (work in progress)"""
+"""C04 -- every result honours the common interface, for any input.
+
+Obligations generated from the real source on every run (DESIGN §3 C04):
+
+ (a) get_dim() == (len(T), longest row of T) with T = get_table(), for every TableInterface class of data_types.py
+     (symbolic execution on an abstract instance; rows are symbolic-length sequences; spec function seq_max);
+ (b) get_bytes() of every ImageInterface class returns an io.BytesIO positioned at 0 whose content is the stored payload,
+     and has the reported length under the class invariant size_bytes == len(payload); the invariant is an obligation at
+     every image-constructor call site of the parsing package (c04_flow: the size argument is len() of the payload expression),
+     and no store overwrites payload / size afterwards;
+ (c) FileMetadataInterface.populate_from_path against an assumed pathlib contract;
+ (d) well-formed Unicode: every own-code source of characters -- each chr(n) site (integer range of n on the path), each
+     bytes->str decode site (codec and error handler), string literals;
+ (e) image numbers >= 1 at the constructor call sites (counter discipline) and at stores to number fields
+     (unit numbers: C03's obligations);
+ (f) accessor totality: get_text / get_images / get_tables / get_metadata of every unit class, get_content_type / get_caption /
+     get_description / get_metadata of every image class, get_table / get_dim, get_metadata of every content class raise
+     nothing on instances whose fields hold values of their declared types, and the text accessors return str;
+ (g) metadata readers copy each documented property (title, creator, subject, keywords, description) unchanged from the
+     node that stores it (c04_meta: dataflow postcondition per reader and property).
+A bounded native sweep (all fixtures, every accessor) validates the assumed models; it is never counted as a proof.
+"""
 import ast
 
 import z3
@@ -10,6 +31,8 @@ from pyvc.verify import Maker, p_bool, p_ext, p_obj, p_opt, p_str
 
 from contracts import c03_exec as X
 from contracts import c04_exec as E
+from contracts import c04_flow as FLOW
+from contracts import c04_meta as META
 from contracts import common
 from contracts.c03_exec import DT, I, S, B, K, fld, fld_at, fld_len, fun
 from contracts.c04_exec import BLEN, CONTENT, EMPTY, SEQMAX, IfaceExecutor
@@ -343,11 +366,24 @@ def accessor_contract(mod, cls, name, iface):
         c.note = f"{name}() returns {r!r}, not a metadata object"
         return z3.BoolVal(False)
 
+    sch = E.class_schema(mod, cls) or {}
+    nf = next((f for f in FLOW.NUMBER_FIELDS if f in sch), None)
+
+    def e_image_number(c):
+        """ImageMetadata.image_number is the stored image number (whose positivity is the constructor-site obligation)."""
+        r = c.result
+        if not (isinstance(r, VRef) and c.st.obj(r.ref).kind == "obj" and isinstance(c.st.obj(r.ref).data.get("image_number"), VInt)):
+            c.note = "get_metadata() does not return an ImageMetadata with an int image_number"
+            return z3.BoolVal(False)
+        return ops.int_term(c.st.obj(r.ref).data["image_number"]) == fld(cls, nf, I)(c.args["self"].t)
+
     ens = []
     if name in STR_ACCESSORS:
         ens.append(("returns-str", e_str))
     if name == "get_metadata":
         ens.append(("returns-a-metadata-object", e_number))
+        if iface == "ImageInterface" and nf is not None:
+            ens.append(("image_number-is-the-stored-number", e_image_number))
     return FnContract(
         target=f"{DT}::{cls}.{name}",
         params=[("self", p_ext(cls))] + kw,
@@ -479,15 +515,59 @@ def native_sweep(repo, tier):
     return {"obligations": [o]}
 
 
-from contracts import c04_flow as FLOW  # noqa: E402
-from contracts import c04_meta as META  # noqa: E402
 
 EXTRA = [file_metadata_defaults, FLOW.image_constructor_sites, FLOW.field_store_sites, FLOW.chr_sites, FLOW.decode_sites, FLOW.literal_sites, META.metadata_readers, native_sweep]
-REPLAY_UNKNOWN = True
-TRUSTED = []
-ASSUMED_MODELS = []
-ASSUMPTIONS = []
-BOUNDED = []
+REPLAY_UNKNOWN = True     # obligations left `unknown` are searched natively (replay/C04.py); only a reproduced failing input is a violation
+TRUSTED = [
+    "strings returned by third-party parsers (xml.etree / defusedxml, openpyxl, pypdf, olefile, xlrd, charset_normalizer, html.parser, "
+    "mail-parser) are well-formed Unicode; the stdlib `email` package can return surrogate-escaped headers for raw 8-bit header "
+    "bytes -- OPEN assumption, not proved (natively probed: no leak on the crafted .eml)",
+    "PY-STR-WF: concatenation, slicing, join, strip, replace, translate, re.sub with literal replacements, html.unescape and "
+    "unicodedata.normalize never create a surrogate code point from well-formed operands",
+    "CPython codecs: every decoder except unicode_escape / raw_unicode_escape / utf-7 (and the handlers surrogateescape / "
+    "surrogatepass) yields only non-surrogate code points with errors in strict / replace / ignore",
+    "PY-RE: group shapes (mandatory / width / digit class) derived from the pattern text with CPython's own regex parser (contracts/c04_regex.py)",
+    "per-site obligations with back end `dataflow` / `z3` in c04_flow / c04_meta are decided on the AST: equal pure argument "
+    "expressions of one call denote equal values; an unrecognised shape is UNDECIDED",
+]
+ASSUMED_MODELS = [
+    "io.BytesIO(initial): fresh stream over `initial` (b'' for None / no argument) at position 0; seek(n) sets the position; content never "
+    "changes (no accessor writes)",
+    "pathlib: Path(x) total; name / suffix / parent / str() pure; exists() may raise OSError (natively: ENAMETOOLONG for a component "
+    "longer than NAME_MAX -- populate_from_path then raises; it is not one of the accessors); resolve() may raise OSError / RuntimeError",
+    "builtins float(str) raises only ValueError (never for a decimal numeral) and may return +inf; round()/int() of a float raise only "
+    "OverflowError (inf) / ValueError (nan)",
+    "IMD-MIRROR: the @dataclass constructor of ImageMetadata (a dict subclass with __setattr__ / __post_init__ mirroring the fields into "
+    "the dict) is total and stores the given fields; TableDim(...) likewise",
+    "XlsSheet.get_table(): a pure function of the instance (its shape is opaque; totality is verified separately)",
+    "dict values of well-typed fields: keys() / values() / items() / get() total",
+]
+ASSUMPTIONS = [
+    "DT-TYPED: fields of the result dataclasses hold values of their declared types (lists finite); established for objects built by the "
+    "extractors by the constructor-site obligations for payload / size / number, assumed for the remaining fields",
+    "unit numbers >= 1: C03's obligations (unit numbering per format and construction sites); C04 adds the image numbers",
+    "white space around OPF dc:* values and the HTML <title> is not significant (EPUB 3.3 5.5.3, HTML `document.title`): for these two "
+    "readers `unchanged` means equal after strip(); OOXML / ODF properties must be exact copies; RTF \\info groups are compared at "
+    "the level of which group feeds which field (the decoding of the group text is C02's)",
+    "xlsx: openpyxl's DocumentProperties.title/creator/keywords/description are the texts of dc:title, dc:creator, cp:keywords, "
+    "dc:description of docProps/core.xml (third-party contract; validated natively on a crafted workbook)",
+    "a `sat` answer on a path that contains an over-approximation (EXC-ANY call, loop cut without invariant, float model) is not a "
+    "counter-model: the obligation is UNDECIDED unless replay/C04.py reproduces a failing input natively",
+    "PY-EXC / EXC-ANY, PY-STR, PY-INT",
+]
+BOUNDED = [
+    "assumed-model-validation#fixtures-honour-the-interface: all supported fixtures of the repository, each with its path and with path "
+    "None, every accessor of every result / unit / image / table (replay/C04.py::check_result), plus seven crafted documents with known "
+    "properties -- validation of the assumed models on real objects, not a proof",
+    "seq_max refuter: sequence lengths <= 3 (only used to turn a failed proof into a counter-model)",
+]
+NOT_CLAIMED = [
+    "get_full_text() / iterate_units() totality and content: C03 (eleven unit-derived formats); doc / ppt / rtf / docx / odt / xls full text "
+    "is only exercised by the native sweep",
+    "to_json() / from_json(): C05",
+    "results of archive members carry the member's `archive!/member` path (C10); the path clause is proved for populate_from_path itself",
+    "that the payload IS the picture stored in the document (C14), that numbers run 1..n without gaps (C14 / F23)",
+]
 
 
 def known_findings(kf, violations, repo, tier):
